@@ -5,7 +5,12 @@ from ..gen import hexs
 from ..runner import Case, Property
 from .. import refho
 
-XS = ["0", "256", "192.7", "-5.9", "131072", "131072.5", "-131072", "131073", "1e3", "abc", "", "nan", "inf", " 12 ", "511.99999", "2147483648", "-0.5", "+7"]
+XS = ["0", "256", "192.7", "-5.9", "131072", "131072.5", "-131072", "131073", "1e3", "abc", "", "nan", "inf", " 12 ", "511.99999", "2147483648", "-0.5", "+7",
+      # decimals a hair below the midpoint of two f32 values next to an integer (rounding the decimal to f64 first and then to
+      # f32 gives the integer; the correctly rounded f32 is below it), and values that exceed the limit only before f32 rounding
+      "0.9999999701976776122046875", "-0.9999999701976776122046875", "191.9999923706054687499", "255.9999923706054687499",
+      "511.9999847412109374999", "99.9999961853027343749", "0.99999997019767761", "191.99999237060546",
+      "131072.001", "-131072.001", "131072.0078", "131072.0079", "-131072.0078125"]
 TIMES = ["0", "1000", "-500", "1234.5", "2147483647", "2147483648", "nan", "abc", "", "1e3", "-0", "0.1"]
 TYPES_ODD = ["-1", "256", "2147483647", "-2147483648", "+1", " 1", "x", "", "1.0", "0x1", "2147483648", "-127", "-128", "384", "65537"]
 SOUNDS_ODD = ["-1", "256", "257", "x", "", " 2", "+4", "2147483647", "-2147483648", "2147483648", "-255"]
